@@ -722,6 +722,106 @@ func policySets() *core.Family {
 	}
 }
 
+// policy sets of n policies, n across the thresholds where a batch, a table or a counter of
+// the implementation could turn over: every id and every policy survives both encodings and
+// the decoded set authorizes like the original.
+func sizedPolicySets(tier string) *core.Family {
+	sizes := []int{0, 1, 2, 15, 16, 17, 63, 64, 65, 127, 128, 129, 255, 256, 257, 300, 511, 512, 513, 600, 767, 768, 769, 1000, 1023, 1024, 1025, 1100, 2047, 2048, 2049}
+	if tier == "thorough" {
+		sizes = append(sizes, 3000, 4095, 4096, 4097, 8193)
+	}
+	return &core.Family{
+		Name: "sized-policy-sets",
+		Desc: fmt.Sprintf("policy sets of %v policies (policy i permits or forbids principal U::\"i\"): JSON and text encodings decoded again keep every id and every policy; every principal is decided as by the original set", sizes),
+		N:    int64(len(sizes)),
+		Run: func(t *core.T, i int64) {
+			n := sizes[i]
+			ps := cedar.NewPolicySet()
+			want := map[string]string{}
+			for k := 0; k < n; k++ {
+				pol := xast.Permit()
+				if k%7 == 3 {
+					pol = xast.Forbid()
+				}
+				pol = pol.PrincipalEq(types.NewEntityUID("U", types.String(fmt.Sprint(k)))).When(xast.Long(types.Long(k)).Equal(xast.Long(types.Long(k))))
+				p := cedar.NewPolicyFromAST((*publicast.Policy)(pol))
+				id := fmt.Sprintf("p%d", k)
+				ps.Add(cedar.PolicyID(id), p)
+				want[id] = Canon((*xast.Policy)(p.AST()))
+			}
+			in := fmt.Sprintf("%d policies", n)
+			compare := func(kind string, back *cedar.PolicySet, byID bool) {
+				got := map[string]string{}
+				var canons, wantCanons []string
+				for id, p := range back.All() {
+					got[string(id)] = Canon((*xast.Policy)(p.AST()))
+					canons = append(canons, got[string(id)])
+				}
+				if len(got) != n {
+					t.Fail("sized-policyset-loses-policies:"+kind, in, fmt.Sprint(n), fmt.Sprint(len(got)))
+					return
+				}
+				if byID {
+					for id, w := range want {
+						if got[id] != w {
+							t.Fail("sized-policyset-changes-policy:"+kind, in+" id "+id, w, got[id])
+							return
+						}
+					}
+				} else {
+					for _, w := range want {
+						wantCanons = append(wantCanons, w)
+					}
+					sort.Strings(canons)
+					sort.Strings(wantCanons)
+					if fmt.Sprint(canons) != fmt.Sprint(wantCanons) {
+						t.Fail("sized-policyset-changes-policy:"+kind, in, "the same policies", "different policies")
+						return
+					}
+				}
+				for k := 0; k < n; k++ {
+					req := cedar.Request{Principal: types.NewEntityUID("U", types.String(fmt.Sprint(k))), Action: types.NewEntityUID("Action", "a"), Resource: types.NewEntityUID("R", "r")}
+					d0, _ := cedar.Authorize(ps, types.EntityMap{}, req)
+					d1, _ := cedar.Authorize(back, types.EntityMap{}, req)
+					if d0 != d1 {
+						t.Fail("sized-policyset-decides-differently:"+kind, in+fmt.Sprintf(" principal U::%d", k), fmt.Sprint(d0), fmt.Sprint(d1))
+						return
+					}
+				}
+			}
+			js, err := ps.MarshalJSON()
+			if err != nil {
+				t.Fail("policyset-marshal-json-error", in, "", err.Error())
+				return
+			}
+			back := cedar.NewPolicySet()
+			if err := back.UnmarshalJSON(js); err != nil {
+				t.Fail("policyset-json-does-not-decode", in, "decodes", err.Error())
+				return
+			}
+			compare("json", back, true)
+			// into a set that already holds policies
+			used := cedar.NewPolicySet()
+			var q cedar.Policy
+			_ = q.UnmarshalCedar([]byte("forbid ( principal, action, resource );"))
+			used.Add("old", &q)
+			if err := used.UnmarshalJSON(js); err != nil {
+				t.Fail("policyset-json-does-not-decode:used", in, "decodes", err.Error())
+			} else {
+				compare("json-into-used-set", used, true)
+			}
+			fromText, err := cedar.NewPolicySetFromBytes("f.cedar", ps.MarshalCedar())
+			if err != nil {
+				t.Fail("policyset-text-does-not-parse", in, "parses", err.Error())
+				return
+			}
+			compare("text", fromText, false)
+			t.Nontrivial()
+			t.AddStates(int64(n))
+		},
+	}
+}
+
 // one construct nested very deep (gen.DeepChains).
 func deepChains(tier string) *core.Family {
 	all := gen.DeepChains(gen.DeepDepths(tier))
@@ -749,9 +849,9 @@ func Check() *core.Check {
 			full := gen.Leaves(gen.V)
 			small := gen.Leaves(gen.W)
 			if tier == "thorough" {
-				return []*core.Family{heads(), policySets(), likeFamily(), foreignFamily(), deepChains(tier), depth1(full), depth2(small[:10])}
+				return []*core.Family{heads(), policySets(), likeFamily(), foreignFamily(), deepChains(tier), sizedPolicySets(tier), depth1(full), depth2(small[:10])}
 			}
-			return []*core.Family{heads(), policySets(), likeFamily(), foreignFamily(), deepChains(tier), depth1(full), depth2([]*Expr{L(Bool(true)), L(Long(-1)), Var("principal"), L(Decimal(-1))})}
+			return []*core.Family{heads(), policySets(), likeFamily(), foreignFamily(), deepChains(tier), sizedPolicySets(tier), depth1(full), depth2([]*Expr{L(Bool(true)), L(Long(-1)), Var("principal"), L(Decimal(-1))})}
 		},
 	}
 }
